@@ -110,7 +110,11 @@ def run_property(pid, tier='quick', seed=0):
             for k, v in m['dropped'].items():
                 all_dropped[k] = all_dropped.get(k, 0) + v
             for x in m['externals']:
-                a = 'external %s modelled by an assumed contract (unit %s)' % (x, u.id)
+                pre_txt = (u.prelude() if callable(u.prelude) else u.prelude) if u.prelude else ''
+                has_body = re.search(r'\b%s\s*\([^;{]*\)\s*\{' % re.escape(x), pre_txt) is not None
+                how = 'an assumed contract' if x in u.replace_raw else ('a C model supplied in the unit prelude (not code of the repository)' if has_body else
+                                                                       'a bodiless declaration: its caller enters by an assumed/proved contract, the call itself is not analysed')
+                a = 'external %s modelled by %s (unit %s)' % (x, how, u.id)
                 if a not in assumptions:
                     assumptions.append(a)
             for x in m.get('uf_abstracted', []):
